@@ -881,10 +881,8 @@ class SimpleShape(DefinedShape):
             if not self.contains_point(point, boundary):
                 return False
         inters = jordan & self.jordans[0]
-        uvals = {}
+        uvals = {a: {0, 1} for a in range(len(jordan.segments))}
         for a, _, u, _ in inters:
-            if a not in uvals:
-                uvals[a] = set()
             uvals[a].add(u)
         for a, us in uvals.items():
             us = sorted(us)
